@@ -78,8 +78,8 @@ def fmtCall (tb : Tables) (pr : Char → Bool) (o : Obj) (args : List Val) (kw :
   ofRendered tb o.kind (vformat (escOf o.kind) pr o.value args kw)
 
 /-- `to_formatted_text(obj % args)` -/
-def modCall (tb : Tables) (o : Obj) (args : List Val) : SRes :=
-  ofRendered tb o.kind (pformat (escOf o.kind) o.value args)
+def modCall (tb : Tables) (pr : Char → Bool) (o : Obj) (args : List Val) : SRes :=
+  ofRendered tb o.kind (pformat (escOf o.kind) pr o.value args)
 
 def Sess.find (s : Sess) (id : Nat) : Option Obj := (s.objs.find? fun p => p.1 == id).map (·.2)
 
@@ -97,7 +97,7 @@ def sessStep (tb : Tables) (pr : Char → Bool) (s : Sess) : SOp → Sess × SRe
   | .mod id args =>
     match s.find id with
     | none => (s, .noObj)
-    | some o => (s, modCall tb o args)
+    | some o => (s, modCall tb pr o args)
   | .get id =>
     match s.find id with
     | none => (s, .noObj)
